@@ -100,3 +100,46 @@ example :
   decide
 
 end Netflow.Props
+
+namespace Netflow.Props
+open Netflow
+
+/-! ### the extracted items matter: with one of them changed, the K-model violates the property (concrete witnesses)
+
+These are the model-side counterparts of seeded source changes: each theorem takes `Ctl.std` with ONE item replaced by the value a
+plausible edit would produce and exhibits a packet on which the property's statement fails for `parseBytesK`. -/
+
+/-- a V9 packet that only announces template 256 -/
+def ctlV9Tpl : Bytes :=
+  [0, 9, 0, 1, 0, 0, 0, 1, 0, 0, 0, 2, 0, 0, 0, 3, 0, 0, 0, 4, 0, 0, 0, 12, 1, 0, 0, 1, 0, 1, 0, 2]
+
+/-- **C12 / C06** need the gate BEFORE the dispatch: with `gateFirst := false` a packet of a refused version teaches its template
+    (the caches change although nothing is reported) -/
+theorem Ctl_gate_order_matters :
+    (parseBytesK { Ctl.std with gateFirst := false } { t := Generated.tables, allowed := [5] } {} ctlV9Tpl).2 = .done [] ∧
+    (parseBytesK { Ctl.std with gateFirst := false } { t := Generated.tables, allowed := [5] } {} ctlV9Tpl).1 ≠ {} ∧
+    (parseBytesK Ctl.std { t := Generated.tables, allowed := [5] } {} ctlV9Tpl).1 = {} := by decide
+
+/-- a V9 template of total size zero, then data for it -/
+def ctlV9Zero : Bytes :=
+  [0, 9, 0, 2, 0, 0, 0, 1, 0, 0, 0, 2, 0, 0, 0, 3, 0, 0, 0, 4, 0, 0, 0, 12, 1, 0, 0, 1, 0, 1, 0, 0, 1, 0, 0, 8, 1, 2, 3, 4]
+
+/-- **C01** needs the zero-size guard: without it (`v9ZeroIsErr := false`, the code before fix bf87dd4) the call panics -/
+theorem Ctl_zero_guard_matters :
+    (parseBytesK { Ctl.std with v9ZeroIsErr := false } { t := Generated.tables, allowed := [9] } {} ctlV9Zero).2 = .panic [] ∧
+    ∃ pkts, (parseBytesK Ctl.std { t := Generated.tables, allowed := [9] } {} ctlV9Zero).2 = .done pkts := by
+  constructor
+  · decide
+  · exact ⟨_, rfl⟩
+
+/-- an IPFIX message whose only set has the RESERVED id 255 and a template-shaped body -/
+def ctlIp255 : Bytes :=
+  [0, 10, 0, 28, 0, 0, 0, 1, 0, 0, 0, 2, 0, 0, 0, 3, 0, 255, 0, 12, 1, 0, 0, 1, 0, 1, 0, 4]
+
+/-- **C06 / C07** need `<` in the IPFIX set classifier: with `<=` (seed C07-c) a set with id 255 — a data-set id for which nothing is
+    cached — is read as a template set and changes the caches -/
+theorem Ctl_set_classifier_matters :
+    (parseBytesK { Ctl.std with ipTmplCmp := .le } { t := Generated.tables, allowed := [10] } {} ctlIp255).1 ≠ {} ∧
+    (parseBytesK Ctl.std { t := Generated.tables, allowed := [10] } {} ctlIp255).1 = {} := by decide
+
+end Netflow.Props
